@@ -61,6 +61,10 @@ STAGES = {
             ('send-2x2-b1-multiline-ok', 'Session', cfg(BUDGET='1', CAPSETS='{{}, {"8BITMIME", "DSN"}}', CLASSES='{"p5", "drop"}', VARIANTS='{"multiok"}')),
             ('send-2x1-b1-late-reply', 'Session', cfg(N='2', MAXR='1', BUDGET='1', CAPSETS='{{}}', CLASSES='{"stall"}', VARIANTS='{"latereply"}')),
             ('send-2x2-b2', 'Session', cfg(CAPSETS='{%s, {}}' % ALLCAPS)),
+            # "too many recipients" (452 4.5.3 / the historical 552 5.5.3, RFC 5321 4.5.3.1.10) at any command: a recipient that got it was not accepted
+            ('send-2x2-b1-too-many-recipients', 'Session', cfg(BUDGET='1', CAPSETS='{%s, {}}' % ALLCAPS, SHAPES='{"toomany"}', CLASSES='{"t4", "p5"}')),
+            # a server with a long list of extensions: an EHLO reply of more than a hundred lines is one reply
+            ('send-2x2-b1-long-ehlo-reply', 'Session', cfg(BUDGET='1', CAPSETS='{%s}' % ALLCAPS, CLASSES='{"p5", "t4"}', VARIANTS='{"bigehlo"}')),
             ('send-caps-dsn-8bit', 'Session', cfg(N='2', MAXR='1', BUDGET='1', ENC8='BOOLEAN',
                                                   DSNS='{"off", "ret", "notify", "both"}', NONOOP='BOOLEAN',
                                                   CAPSETS='{{}, {"8BITMIME"}, {"SMTPUTF8"}, {"DSN"}, {"ENHANCEDSTATUSCODES"}, {"8BITMIME", "DSN"}, %s}' % ALLCAPS)),
